@@ -2957,7 +2957,7 @@ class SourceCatalog:
 
         return flux, fluxerr
 
-    def _make_elliptical_apertures(self, scale=6.0):
+    def _make_elliptical_apertures(self, scale=6.0, min_radius=None):
         """
         Return a list of elliptical apertures based on the scaled
         isophotal shape of the sources.
@@ -3004,8 +3004,12 @@ class SourceCatalog:
 
             # kron_radius = 0 -> scale = 0 -> major/minor_size = 0
             if values[2] == 0 and values[3] == 0:
+                # (the minimum circular radius of the Kron parameters
+                # in use, which are not necessarily self.kron_params)
+                if min_radius is None:
+                    min_radius = self.kron_params[2]
                 aperture.append(CircularAperture((values[0], values[1]),
-                                                 r=self.kron_params[2]))
+                                                 r=min_radius))
                 continue
 
             (xcen_, ycen_, major_, minor_, theta_) = values[:-1]
@@ -3171,7 +3175,9 @@ class SourceCatalog:
         # NOTE: if kron_radius = NaN, scale = NaN and kron_aperture = None
         kron_radius = self._calc_kron_radius(kron_params)
         scale = kron_radius.value * kron_params[0]
-        return self._make_elliptical_apertures(scale=scale)
+        min_radius = kron_params[2] if len(kron_params) > 2 else None
+        return self._make_elliptical_apertures(scale=scale,
+                                               min_radius=min_radius)
 
     @lazyproperty
     @use_detcat
